@@ -52,6 +52,9 @@ FIRST = {
     "C19-4": "the check CRASHED (exit 2: it called a private helper whose signature the change altered); implementation exceptions are now broken correspondence; plus: the processed entry is a symbolic link to the file",
     "C12-4": "missed by C12, C15 HUNG (28 min); per-case alarm and time-limited shrinking; alias sets referring to each other against the registration order",
     "C12-5": "missed; names the template language cannot spell offered as alias / ad-hoc names, every listed alias or ad-hoc tag must be usable in a template",
+    "C02-13": "missed twice: (1) no scenario had equal relative destinations in two input directories plus a chain - twin-roots scenarios and the corpus case TWINCHAIN added; (2) still missed, because the oracle (and the model comparison) judged only the files the stopped run had considered - the oracle now reconstructs the WHOLE plan in processing order (analyse_full)",
+    "C03-10": "reported by C03 as a broken correspondence with no-failing-input-found (by C03's own text a chain destination 'already existed'); the concrete replay comes from C02 (a uniformly ordered chain must succeed) once its oracle judged the whole plan",
+    "C10-11": "missed; template text that is not in a Unicode normal form (combining marks, ANGSTROM/OHM SIGN, ligature, full-width, decomposed Hangul) added to the text pool",
     "C09-10": "missed; filter/sort expressions that parse but are refused by a later stage of compile() ('(yield)', '(await ..)', a walrus in a comprehension iterable: SyntaxError without source text) and other exception classes; every listed expression is now tried in both positions whatever the seed",
     "C07-12": "missed; the order in which directories and explicitly named files appear on the command line is now varied (files first, interleaved)",
     "C19-8": "generator extended after reading the author's report, before the first trial: forged contents whose running CRC is exactly 0 at a read boundary / for the whole file",
